@@ -21,7 +21,9 @@ template <typename T>
 hep::mc_result<T> gen_result(vf::Tape& t, bool allow_empty, T scale, std::size_t fixed_calls = 0)
 {
     std::size_t calls;
+    bool huge = false;
     if (fixed_calls) { calls = fixed_calls; }
+    else if (t.pick(10) == 9 && !std::is_same<T, float>::value) { calls = (std::size_t(1) << 31) + t.range(0, (std::size_t(1) << 32)); huge = true; } // totals beyond 2^32 (not for float: N^2 S^2 leaves its range)
     else switch (t.pick(4))
     {
     case 0: calls = 2 + t.range(0, 8); break;
@@ -45,7 +47,8 @@ hep::mc_result<T> gen_result(vf::Tape& t, bool allow_empty, T scale, std::size_t
     if (e == 0) { e = 1; }
     T const E = static_cast<T>(e) * scale;
     // error relative to |E| between 10^-k and 10^3
-    long double const rel = std::pow(10.0L, -lim<T>::k + t.unit() * (lim<T>::k + 3));
+    // with billions of calls keep S <= |E| so that N^2 S^2 stays representable in float
+    long double const rel = std::pow(10.0L, -lim<T>::k + t.unit() * (lim<T>::k + ((huge || calls > 100000000) ? 0 : 3)));
     T S = static_cast<T>(std::fabs(static_cast<long double>(E)) * rel);
     std::size_t const nz = 1 + t.range(0, calls - 1);
     std::size_t const fin = t.range(0, nz);
@@ -170,6 +173,7 @@ void run_t(vf::Ctx& c)
     if (empties) { c.label("has-empty-result"); }
     if (m == 0) { c.label("no-results"); }
     if (m == 1) { c.label("one-result"); }
+    { std::size_t tot = 0; for (auto const& r : rs) { tot += r.calls(); } if (tot > (std::size_t(1) << 32)) { c.label("total-calls>2^32"); } }
 
     bool illcond = false;
     // --- weighted_with_variance -----------------------------------------------------------------
